@@ -25,6 +25,7 @@
 #include <gmssl/x509_req.h>
 #include <gmssl/x509_crl.h>
 #include <gmssl/error.h>
+#include <gmssl/http.h>
 
 #define NKEYS 4
 static SM2_KEY keys[NKEYS + 1];
@@ -378,6 +379,88 @@ static void do_sigalg(char **w) {
 	free(obj.p);
 }
 
+/* ------------------------------------------------------------------ x509_cert_check_crl (wave 3)
+ * The HTTP transport is replaced at link time (like getentropy/time): http_get() below serves the scripted CRL.
+ * crlcheck <serialhex> <entries> <issuer ca|other> <signkey> <fresh|expired|future> <flip permille|-1> <dp 1|0> <fetch ok|fail> */
+static const uint8_t *served; static size_t served_len; static int serve_fail; static int serve_calls;
+int http_get(const char *uri, uint8_t *buf, size_t *contentlen, size_t buflen) {
+	(void)uri; serve_calls++;
+	if (serve_fail || !served) return -1;
+	*contentlen = served_len;
+	if (!buf || buflen < served_len) return 0;
+	memcpy(buf, served, served_len);
+	return 1;
+}
+static void do_crlcheck(char **w) {
+	buf_t serial = hex2buf(w[1]); int ok; blob_t rev = build_revoked(w[2], &ok);
+	int other_issuer = !strcmp(w[3], "other"), sk = atoi(w[4]); const char *when = w[5]; long flip = strtol(w[6], NULL, 10); int dp = atoi(w[7]);
+	uint8_t caname[256], othername[256], eename[256]; size_t canamelen = 0, othernamelen = 0, eenamelen = 0;
+	uint8_t exts[512]; size_t extslen = 0; blob_t ca = { NULL, 0 }, crl = { NULL, 0 }; uint8_t *cert = NULL, *q; size_t certlen = 0; int r;
+	long long thisu = 1700000000 - 3600, nextu = 1700000000 + 86400; buf_t iss, noex = { NULL, 0 };
+	serve_fail = !strcmp(w[8], "fail"); serve_calls = 0; served = NULL; served_len = 0;
+	if (!strcmp(when, "expired")) { thisu = 1700000000 - 2 * 86400; nextu = 1700000000; }      /* now >= nextUpdate */
+	if (!strcmp(when, "future")) { thisu = 1700000000 + 1; nextu = 1700000000 + 86400; }
+	if (!ok || sk < 1 || sk > NKEYS || !serial.n
+		|| x509_name_set(caname, &canamelen, sizeof caname, "CN", NULL, NULL, "VERIF", NULL, "CA") != 1
+		|| x509_name_set(othername, &othernamelen, sizeof othername, "CN", NULL, NULL, "VERIF", NULL, "CB") != 1
+		|| x509_name_set(eename, &eenamelen, sizeof eename, "CN", NULL, NULL, "VERIF", NULL, "EE") != 1) { printf("ERR args"); goto end; }
+	ca = ca_cert_for(caname, canamelen, 1);
+	if (dp && x509_exts_add_crl_distribution_points(exts, &extslen, sizeof exts, -1, "http://crl.test/ca.crl", 22, NULL, 0) != 1) { printf("ERR exts"); goto end; }
+	if (x509_exts_add_key_usage(exts, &extslen, sizeof exts, X509_critical, X509_KU_DIGITAL_SIGNATURE) != 1) { printf("ERR exts"); goto end; }
+	if (!ca.p || x509_cert_sign_to_der(X509_version_v3, serial.p, serial.n, OID_sm2sign_with_sm3, caname, canamelen, 1699990000, 1700090000, eename, eenamelen,
+		&keys[2], NULL, 0, NULL, 0, exts, extslen, &keys[1], SM2_DEFAULT_ID, SM2_DEFAULT_ID_LENGTH, NULL, &certlen) != 1) { printf("ERR cert"); goto end; }
+	cert = malloc(certlen); q = cert; certlen = 0;
+	if (x509_cert_sign_to_der(X509_version_v3, serial.p, serial.n, OID_sm2sign_with_sm3, caname, canamelen, 1699990000, 1700090000, eename, eenamelen,
+		&keys[2], NULL, 0, NULL, 0, exts, extslen, &keys[1], SM2_DEFAULT_ID, SM2_DEFAULT_ID_LENGTH, &q, &certlen) != 1) { printf("ERR cert"); goto end; }
+	iss.p = other_issuer ? othername : caname; iss.n = other_issuer ? othernamelen : canamelen;
+	crl = issue_crl_raw(X509_version_v2, iss, thisu, nextu, rev, noex, sk);
+	if (!crl.p) { printf("ERR crl"); goto end; }
+	if (flip >= 0) crl.p[(size_t)((crl.n - 1) * (size_t)flip / 1000)] ^= (uint8_t)(1 << (flip % 8));
+	served = crl.p; served_len = crl.n;
+	r = x509_cert_check_crl(cert, certlen, ca.p, ca.n, SM2_DEFAULT_ID, SM2_DEFAULT_ID_LENGTH);
+	printf("%s", r == 1 ? "1" : "ERR");
+end:
+	served = NULL; free(serial.p); free(rev.p); free(ca.p); free(crl.p); free(cert);
+}
+
+/* ------------------------------------------------------------------ concurrent issuing (wave 3)
+ * threads <kind> <iters>: two threads build the same kind of extension / name from different inputs, each compares every
+ * result with the value it computed alone before the other thread started.  Any shared scratch state shows as a mismatch. */
+#include <pthread.h>
+typedef struct { const char *kind; int id; long iters; long mismatches; uint8_t ref[1024]; size_t reflen; } thr_t;
+static int build_kind(const char *kind, int id, uint8_t *out, size_t *outlen, size_t max) {
+	uint8_t in[300]; size_t i; char uri[200];
+	for (i = 0; i < sizeof in; i++) in[i] = (uint8_t)(id * 0x55 + i * (id + 1));
+	for (i = 0; i < sizeof uri - 1; i++) uri[i] = (char)('a' + (i * (id + 3) + id) % 26);
+	memcpy(uri, "http://", 7); uri[sizeof uri - 1] = 0;
+	*outlen = 0;
+	if (!strcmp(kind, "aki")) return x509_exts_add_authority_key_identifier(out, outlen, max, -1, in, 250, NULL, 0, NULL, 0);
+	if (!strcmp(kind, "ski")) return x509_exts_add_subject_key_identifier(out, outlen, max, -1, in, 64);
+	if (!strcmp(kind, "eku")) { int o1[] = { OID_kp_server_auth, OID_kp_client_auth, OID_kp_code_signing }, o2[] = { OID_kp_ocsp_signing, OID_kp_time_stamping, OID_kp_email_protection };
+		return x509_exts_add_ext_key_usage(out, outlen, max, -1, id ? o1 : o2, 3); }
+	if (!strcmp(kind, "crldp")) return x509_exts_add_crl_distribution_points(out, outlen, max, -1, uri, 180, NULL, 0);
+	if (!strcmp(kind, "aia")) return x509_exts_add_authority_info_access(out, outlen, max, 0, uri, 180, NULL, 0);
+	if (!strcmp(kind, "nc")) return x509_exts_add_name_constraints(out, outlen, max, 1, in, 250, NULL, 0);
+	if (!strcmp(kind, "name")) { char cn[40]; for (i = 0; i < 39; i++) cn[i] = (char)('A' + (i + id * 7) % 26); cn[39] = 0;
+		return x509_name_set(out, outlen, max, id ? "CN" : "US", cn, cn, cn, cn, cn); }
+	return -1;
+}
+static void *thr_main(void *arg) {
+	thr_t *t = arg; long n; uint8_t buf[1024]; size_t len;
+	for (n = 0; n < t->iters; n++) {
+		if (build_kind(t->kind, t->id, buf, &len, sizeof buf) != 1 || len != t->reflen || memcmp(buf, t->ref, len)) t->mismatches++;
+	}
+	return NULL;
+}
+static void do_threads(const char *kind, long iters) {
+	thr_t t[2]; pthread_t th[2]; int i;
+	for (i = 0; i < 2; i++) { t[i].kind = kind; t[i].id = i; t[i].iters = iters; t[i].mismatches = 0;
+		if (build_kind(kind, i, t[i].ref, &t[i].reflen, sizeof t[i].ref) != 1) { printf("ERR build"); return; } }
+	for (i = 0; i < 2; i++) pthread_create(&th[i], NULL, thr_main, &t[i]);
+	for (i = 0; i < 2; i++) pthread_join(th[i], NULL);
+	printf("mismatches=%ld", t[0].mismatches + t[1].mismatches);
+}
+
 /* ------------------------------------------------------------------ single-bit modifications */
 static void do_flipall(size_t nw, char **w) {
 	const char *kind = w[1]; size_t step = strtoul(w[2], NULL, 10), off = strtoul(w[3], NULL, 10), i; int b;
@@ -418,6 +501,8 @@ static void handle(size_t nw, char **w) {
 	else if (!strcmp(w[0], "ext") && nw >= 4) do_ext(nw, w);
 	else if (!strcmp(w[0], "extlen") && nw == 4) do_extlen(w);
 	else if (!strcmp(w[0], "sigalg") && nw == 5) do_sigalg(w);
+	else if (!strcmp(w[0], "crlcheck") && nw == 9) do_crlcheck(w);
+	else if (!strcmp(w[0], "threads") && nw == 3) do_threads(w[1], strtol(w[2], NULL, 10));
 	else if (!strcmp(w[0], "certck") && nw == 12) do_certck(w + 1);
 	else if (!strcmp(w[0], "flipall")) do_flipall(nw, w);
 	else printf("ERR bad-op");
